@@ -866,6 +866,63 @@ func (e *mechEnv) execOnce(target any, spec map[string]any, cch cache.Cache) (ou
 	return res
 }
 
+// what an execution has to render according to the model (`want`: the renderings of the object's own templates of the
+// named-template fragment, and whether one of them cannot be rendered with its own definitions): the renderings are
+// looked for in everything the execution produced (upstream headers / cookies, outputs, redirect target, the request
+// the test server echoed), quoting and white space aside; the claims of an issued JWT are looked at without the
+// claims the finalizer adds itself
+func mechStrip(s string) string {
+	return strings.NewReplacer("\\", "", "\"", "", " ", "", "\t", "", "\n", "").Replace(s)
+}
+
+func (e *mechEnv) rendered(out map[string]any, want map[string]any) (bool, map[string]any) {
+	hay := mechStrip(e.canon(out))
+
+	for _, group := range []string{"up_headers", "up_cookies"} {
+		vals, _ := out[group].(map[string]string)
+		for _, v := range vals {
+			i := strings.Index(v, "JWT{")
+			if i < 0 {
+				continue
+			}
+
+			var claims map[string]any
+			if json.Unmarshal([]byte(v[i+3:]), &claims) != nil {
+				continue
+			}
+
+			for _, k := range []string{"iss", "sub", "aud", "jti", "iat", "nbf", "exp"} {
+				delete(claims, k)
+			}
+
+			data, _ := json.Marshal(claims)
+			hay += " " + mechStrip(string(data))
+		}
+	}
+
+	var missing []any
+
+	for _, w := range getArr(want, "strs") {
+		s, _ := w.(string)
+		if !strings.Contains(hay, mechStrip(strings.ReplaceAll(s, e.host, "SERVER"))) {
+			missing = append(missing, s)
+		}
+	}
+
+	errKind, _ := out["err"].(string)
+	details := map[string]any{}
+
+	if len(missing) != 0 {
+		details["not_rendered"] = missing
+	}
+
+	if getBool(want, "fails") && errKind == "ok" {
+		details["rendered_although_own_definitions_do_not_suffice"] = true
+	}
+
+	return len(details) == 0, details
+}
+
 func (e *mechEnv) canon(v any) string {
 	data, _ := json.Marshal(v)
 
@@ -1054,6 +1111,17 @@ func runMech(c map[string]any) (any, error) {
 				out := env.exec(h.obj, obj(op["req"]), nil)
 				res["ran"] = true
 				obs["out"] = json.RawMessage(env.canon(out))
+
+				if want := obj(op["want"]); want != nil && !mechInconclusive(out) {
+					ok, details := env.rendered(out, want)
+					res["rendered"] = ok
+
+					if !ok {
+						obs["rendering"] = details
+					}
+				} else if want != nil {
+					res["rendered"] = true
+				}
 
 				switch {
 				case h.ref == nil:
